@@ -100,7 +100,9 @@ PARSE_FACTS = {
 PROPS = {}
 
 PROPS["C01"] = {
-    "gens": [{"id": "C01", "quick": 40000, "thorough": 1600000, "thorough_seeds": 16}],
+    "gens": [{"id": "C01", "quick": 40000, "thorough": 1600000, "thorough_seeds": 16},
+             # exhaustive small scope (thorough only): all strings of <= 5 macro symbols x whole / byte-wise / every cut
+             {"id": "C01X", "quick": 0, "thorough": 1, "thorough_seeds": 1}],
     "compare": cmp_parse,
     "nontrivial": lambda c, g: not g.startswith("- | nil"),
     "rule": "grammar-directed event streams (70% well-formed, 30% hostile fragments) x segmentation (whole, byte-wise, random, "
@@ -109,6 +111,8 @@ PROPS["C01"] = {
     "hist": hist_parse,
     "assumptions": PARSE_ASSUME,
     "facts": PARSE_FACTS,
+    "exhaustive_subruns": ["C01X: every string of up to 5 symbols over {LF, CR, ':', ' ', 'data', 'id', 'x'} x {whole, byte-wise, "
+                           "every single cut point} x {EOF, read error} (model validation / failing-input search, not the proof)"],
 }
 
 PROPS["C20"] = {
